@@ -11,6 +11,7 @@ import (
 
 	"mellium.im/xmlstream"
 	"mellium.im/xmpp"
+	"mellium.im/xmpp/internal/respiter"
 	"mellium.im/xmpp/paging"
 	"mellium.im/xmpp/stanza"
 )
@@ -99,7 +100,7 @@ func FetchIQ(ctx context.Context, iq stanza.IQ, s *xmpp.Session, q Query) *Iter 
 	}
 
 	return &Iter{
-		iter: paging.WrapIter(xmlstream.NewIter(resp), 0),
+		iter: paging.WrapIter(respiter.New(resp), 0),
 		err:  err,
 	}
 }
